@@ -928,6 +928,13 @@ func legalSubStateMove(from, to v1beta1.CanaryStepState) bool {
 	if from == v1beta1.CanaryStepStateUpgrade && to == v1beta1.CanaryStepStateMetricsAnalysis {
 		return true
 	}
+	// StepInit falls through to StepUpgrade in the same reconcile: when the BatchRelease already
+	// reports the step's batch ready (a step re-entered after a jump back), one status write
+	// carries Init -> Upgrade -> TrafficRouting (or -> MetricsAnalysis for the shortcut above).
+	// Whether the batch really was ready is checkAdvance's business.
+	if from == v1beta1.CanaryStepStateInit && (to == v1beta1.CanaryStepStateTrafficRouting || to == v1beta1.CanaryStepStateMetricsAnalysis) {
+		return true
+	}
 	return false
 }
 
